@@ -4,6 +4,7 @@ use serde_json::Value;
 
 mod common;
 mod framing;
+mod outframe;
 
 pub use common::Tier;
 
@@ -47,6 +48,7 @@ fn main() {
     let code = match args[0].as_str() {
         "framing" => framing::run_c01(tier),
         "cancel" => framing::run_c07(tier),
+        "outframe" => outframe::run(tier),
         _ => usage(),
     };
     std::process::exit(code);
@@ -56,6 +58,7 @@ fn replay(v: &Value, path: &str) -> i32 {
     let prop = v["property"].as_str().unwrap_or("");
     let r = match prop {
         "C01" | "C07" => framing::replay(v),
+        "C02" => outframe::replay(v),
         _ => {
             eprintln!("MACHINERY: no replay handler for property `{prop}`");
             return 2;
